@@ -20,6 +20,7 @@ structure CfiRow where
   block : Nat := 0      -- (before rows) the block and displacement the directives are keyed by
   disp : Nat := 0
   hasEndproc : Bool := false
+  hasStartproc : Bool := false
   deriving Repr, Inhabited
 
 /-- the state in effect for an instruction at `pos` (directives located at `pos` included) -/
@@ -87,7 +88,10 @@ def checkCfi (before after : IR) (edits : List LEdit) (nop : List Nat) (rowsB ro
         let s := sectName before ex.sect
         let q := p0 + e.off
         let inside := stateForInsertion rowsB ((sectionBlocks before ex.sect).map (·.1.id)) e.block e.off
-        if inside.1 < 0 || !ob.isCode then [] else
+        -- an insertion exactly where a `.cfi_startproc` is keyed is not judged: the listing does not say on
+        -- which side of the directive the new code goes
+        let atStartproc := rowsB.any (fun r => r.block == e.block && r.disp == e.off && r.hasStartproc)
+        if inside.1 < 0 || !ob.isCode || (atStartproc && e.off != 0) then [] else
           let es := editsOf edits e.block
           let base := start + editStart es e
           let first := stateAt rowsA s base
